@@ -1,66 +1,95 @@
-"""Thorough tier: the rules with their wider sweeps (ctx.tier == 'thorough') plus checker self-validation:
-seeded variants of the *current* source, computed in memory, that must fire (MF) or must stay silent (MS)."""
+"""Thorough tier: the rules with their wider sweeps (ctx.tier == 'thorough') plus checker self-validation on the
+*current* tree: every seeded change under /verif/seeded that breaks this property must be reported (must-fire), and every
+behaviour-preserving refactoring under /verif/refactors must leave the check silent (must-stay-silent).  Each variant is
+the current /repo source with one patch applied, built in a scratch directory outside /repo and /verif and removed at
+once; the rule modules analyse it exactly as they analyse /repo."""
 from __future__ import annotations
 
 import importlib
+import json
 import multiprocessing as mp
 import os
 import random
-import sys
+import shutil
+import subprocess
+import tempfile
 import time
-from typing import Dict, List, Tuple
+from typing import Dict, List, Optional, Tuple
 
-from . import report, variants
+from . import report
 from .model import read_sources, REPO
 
+VERIF = os.path.dirname(os.path.dirname(os.path.abspath(__file__)))
+SEEDED = os.path.join(VERIF, "seeded")
+REFACTORS = os.path.join(VERIF, "refactors")
 
-def _load_catalogue(prop: str):
+
+def _catalogue(prop: str) -> List[Tuple[str, str, str]]:
+    """(name, kind, patch path)"""
+    out = []
+    if os.path.isdir(SEEDED):
+        for n in sorted(os.listdir(SEEDED)):
+            p = os.path.join(SEEDED, n, "patch.diff")
+            m = os.path.join(SEEDED, n, "meta.json")
+            if not (os.path.isfile(p) and os.path.isfile(m)):
+                continue
+            try:
+                meta = json.load(open(m))
+            except Exception:
+                continue
+            if meta.get("breaks_property") == prop and not meta.get("not_detected_by_design"):
+                out.append((n, "MF", p))
+    if os.path.isdir(REFACTORS):
+        for n in sorted(os.listdir(REFACTORS)):
+            p = os.path.join(REFACTORS, n, "patch.diff")
+            if os.path.isfile(p):
+                out.append((n, "MS", p))
+    return out
+
+
+def _patched_sources(patch: str) -> Optional[Dict[str, str]]:
+    repo = os.environ.get("SWEETPEA_REPO", REPO)
+    tmp = tempfile.mkdtemp(prefix="sa_variant_")
     try:
-        m = importlib.import_module("selftest." + prop)
-    except ModuleNotFoundError:
-        return []
-    return list(getattr(m, "VARIANTS", []))
+        shutil.copytree(os.path.join(repo, "sweetpea"), os.path.join(tmp, "sweetpea"),
+                        ignore=shutil.ignore_patterns("__pycache__", "*.pyc", "tests"))
+        r = subprocess.run(["patch", "-p1", "-s", "--no-backup-if-mismatch", "-f", "-i", patch], cwd=tmp, capture_output=True, text=True)
+        if r.returncode != 0:
+            return None
+        return read_sources(tmp)
+    finally:
+        shutil.rmtree(tmp, ignore_errors=True)
 
 
 def _run_variant(args) -> Tuple[str, str, str, str]:
-    prop, idx = args
-    cat = _load_catalogue(prop)
-    v = cat[idx]
-    name, kind, make = v[0], v[1], v[2]
-    expect_rule = v[3] if len(v) > 3 else None
-    try:
-        src = make(read_sources(os.environ.get("SWEETPEA_REPO", REPO)))
-    except variants.StaleVariant as e:
-        return name, kind, "stale", str(e)
+    prop, name, kind, patch = args
+    src = _patched_sources(patch)
+    if src is None:
+        return name, kind, "stale", "patch no longer applies to the current tree"
     code, findings, ctx = report.run(prop, "thorough", quiet=True, write=False, sources=src)
     rules = sorted({f.rule for f in findings})
     if kind == "MF":
-        if code == 1 and (expect_rule is None or any(r.startswith(expect_rule) for r in rules)):
+        if code == 1:
             return name, kind, "ok", ",".join(rules)
-        if code == 2 and expect_rule == "ANALYSIS-ERROR":
-            return name, kind, "ok", "analysis-error as expected"
-        return name, kind, "MISSED", "exit %d rules %s" % (code, rules)
-    else:
-        if code == 0:
-            return name, kind, "ok", ""
-        return name, kind, "FALSE-ALARM", "exit %d rules %s %s" % (
-            code, rules, (findings[0].message[:200] if findings else ""))
+        return name, kind, "MISSED", "exit %d rules %s %s" % (code, rules, (getattr(ctx, "analysis_error", "") or "")[:160])
+    if code == 0:
+        return name, kind, "ok", ""
+    detail = findings[0].message[:200] if findings else (getattr(ctx, "analysis_error", "") or "")[:200]
+    return name, kind, "FALSE-ALARM" if code == 1 else "UNDECIDED", "exit %d rules %s %s" % (code, rules, detail)
 
 
 def run(prop: str) -> int:
     t0 = time.time()
     code, findings, ctx = report.run(prop, "thorough")
-    cat = _load_catalogue(prop)
+    cat = _catalogue(prop)
     seed = int(os.environ.get("VERIF_SEED", "0") or 0)
-    order = list(range(len(cat)))
-    random.Random(seed).shuffle(order)
-    results = []
+    random.Random(seed).shuffle(cat)
+    results: List[Tuple[str, str, str, str]] = []
     if cat:
-        jobs = [(prop, i) for i in order]
-        workers = min(16, len(jobs))
-        with mp.Pool(workers) as pool:
+        jobs = [(prop, n, k, p) for n, k, p in cat]
+        with mp.Pool(min(16, len(jobs))) as pool:
             results = pool.map(_run_variant, jobs)
-    bad = [r for r in results if r[2] in ("MISSED", "FALSE-ALARM")]
+    bad = [r for r in results if r[2] in ("MISSED", "FALSE-ALARM", "UNDECIDED")]
     stale = [r for r in results if r[2] == "stale"]
     selfval = {
         "variants": len(results),
@@ -71,11 +100,10 @@ def run(prop: str) -> int:
         "failed": [{"name": r[0], "kind": r[1], "result": r[2], "detail": r[3]} for r in bad],
         "fired": [{"name": r[0], "rules": r[3]} for r in results if r[1] == "MF" and r[2] == "ok"],
     }
-    print("self-validation: %d variants (%d must-fire, %d must-stay-silent): %d ok, %d stale, %d failed" % (
+    print("self-validation on this tree: %d variants (%d seeded changes that must fire, %d refactorings that must stay silent): %d ok, %d stale, %d failed" % (
         selfval["variants"], selfval["must_fire"], selfval["must_stay_silent"], selfval["ok"], len(stale), len(bad)))
     for r in bad:
         print("  %s variant '%s': %s (%s)" % (r[1], r[0], r[2], r[3]))
-    # rewrite the evidence with the self-validation record
     if ctx is not None:
         mod = importlib.import_module("sa.rules." + prop)
         known_seen = getattr(ctx, "known_seen", [])
